@@ -39,6 +39,14 @@ pub fn run(ctx: &mut Ctx) {
         ctx.count("deep_tree_cases");
         crate::c02::case(ctx, &cfg, &data, "deep_tree", Sink::Buf, false, seed, "rt,mode,header");
     }
+    // zero runs in the code-length sequence exactly at the 138 / 11 / 3 boundaries of the run codes
+    for k in 0..(60 * ctx.scale) {
+        let data = plain::gen(&mut ctx.rng, "clen_runs", 0);
+        let cfg = Cfg { level: ctx.rng.range(1, 10) as u8, strategy: *ctx.rng.pick(&[2u8, 2, 0, 0, 1]), zlib: k % 2 == 0, wb: 15 };
+        let seed = ctx.rng.next();
+        ctx.count("clen_runs_cases");
+        crate::c02::case(ctx, &cfg, &data, "clen_runs", Sink::Buf, false, seed, "rt,mode,header");
+    }
     // stale hash entries almost a whole dictionary back (level 1 loads up to 4 KiB of lookahead first)
     for _ in 0..(16 * ctx.scale) {
         let len = ctx.rng.range(40000, 120000);
